@@ -54,7 +54,43 @@ def run_cli(cmd, text, timeout_s):
             pass
 
 
-def discharge(ob, timeout_ms=10000, second_opinion=True, want_model=True):
+def goal_conjuncts(hyp, goal):
+    """(hyp', [g1..gk]) with  hyp -> goal  ==  hyp' -> (g1 and ... and gk)   (implications pushed into the hypothesis, top-level
+    conjunctions flattened)"""
+    goal = zbool(goal)
+    while z3.is_implies(goal):
+        hyp = And_(hyp, goal.arg(0))
+        goal = goal.arg(1)
+    out = []
+
+    def flat(g):
+        if z3.is_and(g):
+            for c in g.children():
+                flat(c)
+        else:
+            out.append(g)
+    flat(goal)
+    return hyp, out
+
+
+def discharge_split(ob, timeout_ms, want_model=True):
+    """second line for an obligation the solvers leave open: prove the conjuncts of the goal one by one (each under the whole
+    hypothesis).  All valid -> valid; one refuted -> refuted (its model falsifies the whole goal); otherwise unknown."""
+    hyp, parts = goal_conjuncts(ob.hyp, ob.goal)
+    if len(parts) < 2:
+        return None
+    model = None
+    for k, g in enumerate(parts):
+        sub = Obligation(f'{ob.id}#part{k}', ob.kind, hyp, g, ob.prop, ob.label, ob.meta)
+        r = discharge(sub, timeout_ms, second_opinion=True, want_model=want_model, split=False)
+        if r['status'] == REFUTED:
+            return {'status': REFUTED, 'backend': r['backend'] + f'+split({k + 1}/{len(parts)})', 'model': r['model']}
+        if r['status'] != VALID:
+            return {'status': UNKNOWN, 'backend': r['backend'] + f'+split({k + 1}/{len(parts)})', 'model': None}
+    return {'status': VALID, 'backend': f'z3-5.1(py)+split({len(parts)})', 'model': None}
+
+
+def discharge(ob, timeout_ms=10000, second_opinion=True, want_model=True, split=True):
     """returns dict(status, backend, seconds, model) -- status in valid/refuted/unknown
     (for covers: 'valid' means satisfiable as required)"""
     t0 = time.time()
@@ -89,6 +125,10 @@ def discharge(ob, timeout_ms=10000, second_opinion=True, want_model=True):
                 if r2 in ('sat', 'unsat'):
                     res, backend = r2, name
                     break
+    if res == 'unknown' and split and ob.kind not in ('cover', 'canary'):
+        r3 = discharge_split(ob, timeout_ms, want_model)
+        if r3 is not None and r3['status'] != UNKNOWN:
+            return {'status': r3['status'], 'backend': r3['backend'], 'seconds': round(time.time() - t0, 4), 'model': r3['model']}
     secs = time.time() - t0
     if ob.kind == 'cover':
         status = VALID if res == 'sat' else (REFUTED if res == 'unsat' else UNKNOWN)
